@@ -46,7 +46,7 @@ DATETIMES_EXT = [_dt(DATES_EXT[0]), _dt(DATES_EXT[1], 23, 59, 59, 999999)]
 
 KINDS_BASIC = ["bool", "int", "float", "str", "date", "datetime"]
 KINDS_KEY = ["bool", "int", "float", "str", "lstr", "ustr", "date", "datetime", "obool"]
-NA_CAPABLE = {"timedelta_ms", "datetime_s", "datetime_ms", "datetime_ns", "longdouble", "tstr", "onum", "omix", "float", "str", "lstr", "ustr", "date", "datetime", "obool", "obj", "ostr", "timedelta", "float32", "oint"}
+NA_CAPABLE = {"timedelta_ms", "datetime_s", "datetime_ms", "datetime_ns", "longdouble", "tstr", "onum", "omix", "float", "str", "lstr", "ustr", "date", "datetime", "obool", "obj", "ostr", "timedelta", "float32", "oint", "olist"}
 NA_PATTERNS = ["none", "none", "some", "some", "first", "last", "all"]
 
 def pool(rng, kind, hostile=0.25, tags=None):
@@ -116,6 +116,8 @@ def pool(rng, kind, hostile=0.25, tags=None):
         return [True, False]
     if kind == "oint":
         return [2, 10, 100, 9, -5, 0, 33]        # object column of ints: value order differs from the order of str(value)
+    if kind == "olist":
+        return [[1], [1, 2], [2], [0, 5], [1, 0], [10]]       # object column of comparable but unhashable values (lists)
     if kind == "longdouble":
         return [(1.0, 0), (1.0, 1), (1.0, 2), (2.5, 0), (-3.0, 0), (-3.0, 1), (0.5, 0)]
     if kind == "onum":
@@ -212,7 +214,7 @@ def np_column(kind, values):
         return np.array(values, dtype="S3") if n else np.array([], dtype="S1")
     if kind == "complex":
         return np.array(values, dtype=np.complex128)
-    if kind in ("obool", "obj", "ostr", "oint", "onum", "omix"):
+    if kind in ("obool", "obj", "ostr", "oint", "onum", "omix", "olist"):
         a = np.empty(n, dtype=object)
         for i, v in enumerate(values):
             a[i] = v
